@@ -32,7 +32,7 @@ from ..core import ROOT, Ctx, HarnessError, Violation, hyp_run, shard_run
 
 PID = "C03"
 LEVEL = "exploration"
-RULE = ("node level: all 65 793 byte strings of length <= 2, 8 prefixes x 256 ids x 27 short bodies, every truncation of "
+RULE = ("[plus: every captured message kind handed to the overlay's own on_packet with one prefix byte altered; the node's peer graph holds two strangers that announced the same LAN address] node level: all 65 793 byte strings of length <= 2, 8 prefixes x 256 ids x 27 short bodies, every truncation of "
         "every captured datagram (8 scripted overlay runs), Hypothesis-structured corruptions up to 1500 bytes, delivered to "
         "a multiplexed node through SimEndpoint.notify_listeners and through UDPEndpoint/UDPv6Endpoint.datagram_received; "
         "thorough adds Atheris (libFuzzer) campaigns on the same entry. decode level: all truncations and length-prefix "
